@@ -130,7 +130,10 @@ func (db *PreparedStmtDB) prepare(ctx context.Context, conn ConnPool, isTransact
 	if err != nil {
 		cacheStmt.prepareErr = err
 		db.Mux.Lock()
-		delete(db.Stmts, query)
+		// the entry may have been replaced after a Reset, only remove our own
+		if cached, ok := db.Stmts[query]; ok && cached == &cacheStmt {
+			delete(db.Stmts, query)
+		}
 		db.Mux.Unlock()
 		return Stmt{}, err
 	}
@@ -140,6 +143,14 @@ func (db *PreparedStmtDB) prepare(ctx context.Context, conn ConnPool, isTransact
 	db.Mux.Unlock()
 
 	return cacheStmt, nil
+}
+
+// evict removes stmt from the cache unless the entry of query has been replaced by a newer statement.
+// the caller must hold db.Mux
+func (db *PreparedStmtDB) evict(query string, stmt Stmt) {
+	if cached, ok := db.Stmts[query]; ok && cached.Stmt == stmt.Stmt {
+		delete(db.Stmts, query)
+	}
 }
 
 func (db *PreparedStmtDB) BeginTx(ctx context.Context, opt *sql.TxOptions) (ConnPool, error) {
@@ -171,7 +182,7 @@ func (db *PreparedStmtDB) ExecContext(ctx context.Context, query string, args ..
 			db.Mux.Lock()
 			defer db.Mux.Unlock()
 			go stmt.Close()
-			delete(db.Stmts, query)
+			db.evict(query, stmt)
 		}
 	}
 	return result, err
@@ -186,7 +197,7 @@ func (db *PreparedStmtDB) QueryContext(ctx context.Context, query string, args .
 			defer db.Mux.Unlock()
 
 			go stmt.Close()
-			delete(db.Stmts, query)
+			db.evict(query, stmt)
 		}
 	}
 	return rows, err
@@ -240,7 +251,7 @@ func (tx *PreparedStmtTX) ExecContext(ctx context.Context, query string, args ..
 			defer tx.PreparedStmtDB.Mux.Unlock()
 
 			go stmt.Close()
-			delete(tx.PreparedStmtDB.Stmts, query)
+			tx.PreparedStmtDB.evict(query, stmt)
 		}
 	}
 	return result, err
@@ -255,7 +266,7 @@ func (tx *PreparedStmtTX) QueryContext(ctx context.Context, query string, args .
 			defer tx.PreparedStmtDB.Mux.Unlock()
 
 			go stmt.Close()
-			delete(tx.PreparedStmtDB.Stmts, query)
+			tx.PreparedStmtDB.evict(query, stmt)
 		}
 	}
 	return rows, err
